@@ -1046,6 +1046,139 @@ func routeRaces(w *tr.W, rng *rand.Rand, rounds int) int {
 	return nev
 }
 
+// Capacity pressure: "apart from capacity being applied per shard" - a wide LRU of total capacity c
+// over n shards gives every shard capacity c/n + 1 (its constructors say so), so the calls that reach
+// one shard must be answered exactly as an unsharded LRU of that capacity answers them: who is evicted
+// depends on the recency order, which only Set / Get refresh (not Peek, not Exist, not Delete of
+// another key).  Small capacities and two keys more than fit per shard keep every shard at its limit.
+// The calls are split by the shard the public remap index names (in range and stable: judged above)
+// and written in the trace format of specs/lru/LRU_Trace.tla, the unsharded structure's specification.
+type svs struct{ id, size int }
+
+func (s svs) Size() int { return s.size }
+
+func runPressure(w *tr.W, rng *rand.Rand, rounds int) {
+	for r := 0; r < rounds; r++ {
+		variant := []string{"lru", "lrux", "tiny", "tinyx"}[r%4]
+		n := 1 + (r/4)%3
+		capa := rng.Intn(3*n + 3)
+		c := conf{variant, n, int64(capa)}
+		s, cnote := newStoreC(c)
+		sized := variant == "lru" || variant == "lrux"
+		pcap := capa/n + 1
+		hdr := func(shard int) tr.E {
+			return tr.E{"ev": "reset", "cap": pcap, "sized": sized, "threads": 1, "src": "pressure-" + variant,
+				"shard": shard, "shards": n, "total": capa, "keykind": 0}
+		}
+		if s == nil {
+			w.Emit(hdr(0))
+			w.Emit(tr.E{"ev": "panic", "where": "constructor", "note": cnote})
+			continue
+		}
+		rm, _, _ := newReMap(n)
+		if rm == nil {
+			continue // reported by the routing traces
+		}
+		nkeys := (pcap+2)*n + rng.Intn(2)
+		per := make([][]tr.E, n)
+		for i := 0; i < 30*n+rng.Intn(20); i++ {
+			tick()
+			k := 1 + rng.Intn(nkeys)
+			var kv interface{} = k
+			if isX(variant) {
+				if k%2 == 0 {
+					kv = fmt.Sprintf("key-%d", k)
+				} else {
+					kv = int32(k)
+				}
+			}
+			var sh int
+			if isX(variant) {
+				sh, _ = index(func() int { return rm.XHashIndex(kv) })
+			} else {
+				sh, _ = index(func() int { return rm.SimpleIndex(kv) })
+			}
+			op := []string{"set", "set", "set", "set", "exist", "exist", "exist", "peek", "peek", "get", "get", "del"}[rng.Intn(12)]
+			a := tr.E{"op": op, "k": k}
+			v, size := 1+rng.Intn(1000), 1
+			if sized && rng.Intn(8) == 0 {
+				size = rng.Intn(3)
+			}
+			if op == "set" {
+				a["v"], a["s"] = v, size
+			}
+			e := tr.E{"ev": "callr", "a": a}
+			func() {
+				defer func() {
+					if p := recover(); p != nil {
+						e = tr.E{"ev": "panic", "a": a, "note": fmt.Sprintf("%v", p)}
+					}
+				}()
+				hit := func(x interface{}, ok bool) tr.E {
+					if !ok {
+						return tr.E{"ok": false, "v": 0}
+					}
+					switch y := x.(type) {
+					case svs:
+						return tr.E{"ok": true, "v": y.id}
+					case int:
+						return tr.E{"ok": true, "v": y}
+					}
+					return tr.E{"ok": true, "v": -1} // a value that was never stored
+				}
+				switch st := s.(type) {
+				case lruStore:
+					switch op {
+					case "set":
+						st.c.Set(kv, svs{v, size})
+						e["r"] = 0
+					case "get":
+						x, ok := st.c.Get(kv)
+						e["r"] = hit(x, ok)
+					case "peek":
+						x, ok := st.c.Peek(kv)
+						e["r"] = hit(x, ok)
+					case "exist":
+						e["r"] = st.c.Exist(kv)
+					case "del":
+						e["r"] = st.c.Delete(kv)
+					}
+				case tinyStore:
+					switch op {
+					case "set":
+						st.c.Set(kv, v)
+						e["r"] = 0
+					case "get":
+						x, ok := st.c.Get(kv)
+						e["r"] = hit(x, ok)
+					case "peek":
+						x, ok := st.c.Peek(kv)
+						e["r"] = hit(x, ok)
+					case "exist":
+						e["r"] = st.c.Exist(kv)
+					case "del":
+						e["r"] = st.c.Delete(kv)
+					}
+				}
+			}()
+			if sh < 0 || sh >= n {
+				per[0] = append(per[0], tr.E{"ev": "badindex", "a": a, "n": n})
+				continue
+			}
+			per[sh] = append(per[sh], e)
+		}
+		for sh := range per {
+			if len(per[sh]) == 0 {
+				continue
+			}
+			w.Emit(hdr(sh))
+			for _, e := range per[sh] {
+				w.Emit(e)
+			}
+		}
+	}
+}
+
 func readPlan(path string) []act {
 	f, err := os.Open(path)
 	if err != nil {
@@ -1077,6 +1210,8 @@ func main() {
 	nrace := flag.Int("nrace", 3000, "race rounds to run at most")
 	nracekeep := flag.Int("nracekeep", 1200, "race rounds (with real overlap) to keep at most")
 	nroutecold := flag.Int("nroutecold", 150, "cold-start routing rounds")
+	pressure := flag.String("pressure", "pressure.ndjson", "capacity-pressure traces (LRU_Trace format)")
+	npress := flag.Int("npress", 240, "capacity-pressure histories")
 	flag.Parse()
 	rng := rand.New(rand.NewSource(*seed))
 
@@ -1167,7 +1302,11 @@ func main() {
 	rw := openTrace(*races)
 	ran, kept := runRaces(rw, rng, *nrace, *nracekeep)
 	rw.Close()
+	pw := openTrace(*pressure)
+	runPressure(pw, rng, *npress)
+	pw.Close()
 	_ = nev
+	fmt.Printf("pressure_events=%d ", pw.N())
 	fmt.Printf("cold_route_events=%d ", ncold)
 	fmt.Printf("route_events=%d map_events=%d race_events=%d race_rounds=%d race_rounds_with_overlap=%d\n",
 		w.N(), mw.N(), rw.N(), ran, kept)
